@@ -63,6 +63,216 @@ func runChangedC03(r *core.CaseResult) {
 	}
 }
 
+// ---- C03: an execution that fails in an aggregate, the caller repairs the row, the same Query again
+
+func runFailedThenRepairedC03(r *core.CaseResult) {
+	r.Nontrivial = true
+	sqls := []string{
+		"SELECT COUNT(*) AS c, SUM(v) AS s FROM t",
+		"SELECT COUNT(*) AS c, MAX(h) AS hi, SUM(v) AS s, MIN(h) AS lo FROM t",
+		"SELECT SUM(h) AS sh, AVG(v) AS m, COUNT(*) AS c FROM t WHERE h > 0",
+		"SELECT g, COUNT(*) AS c, SUM(v) AS s FROM t GROUP BY g",
+		"SELECT g, MAX(h) AS hi, AVG(v) AS m FROM t GROUP BY g HAVING COUNT(*) > 0",
+	}
+	mk := func(poison int) []any {
+		rows := []any{
+			map[string]any{"g": "a", "h": 1.0, "v": 1.0},
+			map[string]any{"g": "b", "h": 2.0, "v": 2.0},
+			map[string]any{"g": "a", "h": 3.0, "v": 3.0},
+			map[string]any{"g": "b", "h": 4.0, "v": 4.0},
+		}
+		rows[poison].(map[string]any)["v"] = "n/a"
+		return rows
+	}
+	type repair struct {
+		name string
+		do   func(rows []any, k int)
+	}
+	repairs := []repair{
+		{"v = 7", func(rows []any, k int) { rows[k].(map[string]any)["v"] = 7.0 }},
+		{"v = 7, h = 0", func(rows []any, k int) { m := rows[k].(map[string]any); m["v"] = 7.0; m["h"] = 0.0 }},
+		{"v = 7 and the next row's h = 9", func(rows []any, k int) {
+			rows[k].(map[string]any)["v"] = 7.0
+			rows[(k+1)%len(rows)].(map[string]any)["h"] = 9.0
+		}},
+		{"v = NULL", func(rows []any, k int) { rows[k].(map[string]any)["v"] = nil }},
+	}
+	failed := 0
+	for _, sql := range sqls {
+		for k := 0; k < 4; k++ {
+			for _, rp := range repairs {
+				rows := mk(k)
+				doc := map[string]any{"t": rows}
+				second, fresh, problem, firstFailed := execMutateExecF(doc, sql, nil, func() { rp.do(rows, k) }, true)
+				r.Execs += 3
+				if firstFailed {
+					failed++
+				}
+				cs := map[string]any{"sql": sql, "doc": map[string]any{"t": mk(k)}, "after-first-exec": fmt.Sprintf("t[%d]: %s", k, rp.name)}
+				if problem != "" {
+					// a query that still fails after the repair fails for the fresh Query as well: not this case's matter
+					continue
+				}
+				if second != fresh {
+					r.Fail("C03|failed-then-repaired|stale", fmt.Sprintf("%s: the first execution met v = \"n/a\" in t[%d]; after the repair (%s) the same query returned %s, a fresh query returns %s", sql, k, rp.name, second, fresh), cs)
+				}
+			}
+		}
+	}
+	r.Outcomes = append(r.Outcomes, fmt.Sprintf("first-execution-failed=%d", failed))
+}
+
+// ---- C05: rows changed in place between two executions of one query with a window
+
+func runChangedC05(r *core.CaseResult) {
+	r.Nontrivial = true
+	sqls := []string{
+		"SELECT id FROM t WHERE a > 1",
+		"SELECT id, a FROM t WHERE a > 1 ORDER BY a DESC",
+		"SELECT id, a FROM t ORDER BY a",
+		"SELECT id, a FROM t WHERE a > 1 ORDER BY a LIMIT 2 OFFSET 1",
+		"SELECT id FROM t WHERE a > 1 LIMIT 10",
+		"SELECT id FROM t LIMIT 3 OFFSET 1",
+		"SELECT id, a FROM t WHERE a > 1 ORDER BY a DESC LIMIT 1, 3",
+	}
+	mk := func() []any {
+		return []any{
+			map[string]any{"id": 0.0, "a": 1.0},
+			map[string]any{"id": 1.0, "a": 2.0},
+			map[string]any{"id": 2.0, "a": 0.0},
+			map[string]any{"id": 3.0, "a": 3.0},
+			map[string]any{"id": 4.0, "a": -1.0},
+		}
+	}
+	// every single edit, and every pair of edits of two different rows: the result grows, shrinks,
+	// changes its order
+	vals := []float64{10, -10}
+	for _, sql := range sqls {
+		for i := 0; i < 5; i++ {
+			for j := i; j < 5; j++ {
+				for _, vi := range vals {
+					for _, vj := range vals {
+						if i == j && vi != vj {
+							continue
+						}
+						rows := mk()
+						doc := map[string]any{"t": rows}
+						second, fresh, problem := execMutateExec(doc, sql, nil, func() {
+							rows[i].(map[string]any)["a"] = vi + float64(i)
+							rows[j].(map[string]any)["a"] = vj + float64(j)
+						})
+						r.Execs += 3
+						what := fmt.Sprintf("t[%d].a = %v, t[%d].a = %v", i, vi+float64(i), j, vj+float64(j))
+						cs := map[string]any{"sql": sql, "doc": map[string]any{"t": mk()}, "after-first-exec": what}
+						if problem != "" {
+							r.Fail("C05|changed-between-execs|problem", problem, cs)
+							continue
+						}
+						if second != fresh {
+							r.Fail("C05|changed-between-execs|stale", fmt.Sprintf("%s: after %s the same query returned %s, a fresh query returns %s", sql, what, second, fresh), cs)
+						}
+					}
+				}
+			}
+		}
+	}
+}
+
+// ---- C08: the nested source changed between two executions of one query
+
+func runChangedC08(r *core.CaseResult) {
+	r.Nontrivial = true
+	sqls := []string{
+		"SELECT id, a FROM m",
+		"SELECT id FROM m WHERE a > 1",
+		"SELECT a + 1 AS b FROM m WHERE a > 0",
+		"SELECT id FROM m ORDER BY a DESC",
+		"SELECT id, a FROM m LIMIT 1",
+	}
+	// (a `mix=>m` source is not in the menu: a selector function in FROM is evaluated once, by New,
+	// like a derived table - the Query ranges over the array it produced then)
+	row := func(id, a float64) any { return map[string]any{"id": id, "a": a} }
+	mks := []func() []any{
+		func() []any { return []any{[]any{row(0, 1), row(1, 2)}, []any{row(2, 3)}, []any{row(3, 0), row(4, 5)}} },
+		func() []any { return []any{[]any{row(0, 2)}, []any{}, []any{row(1, 1), row(2, 4), row(3, 3)}} },
+		// three dimensions
+		func() []any {
+			return []any{[]any{[]any{row(0, 1), row(1, 2)}, []any{row(2, 3)}}, []any{[]any{row(3, 4)}}}
+		},
+	}
+	type change struct {
+		name string
+		do   func(m []any)
+	}
+	inner := func(m []any, i int) []any { return m[i%len(m)].([]any) }
+	changes := []change{
+		{"m[0] = another array", func(m []any) { m[0] = []any{row(10, 7), row(11, 0), row(12, 9)} }},
+		{"m[last] = another array", func(m []any) { m[len(m)-1] = []any{row(20, 8)} }},
+		{"m[1] = empty array", func(m []any) { m[1%len(m)] = []any{} }},
+		{"m[0], m[last] swapped", func(m []any) { m[0], m[len(m)-1] = m[len(m)-1], m[0] }},
+		{"a row of m[0] edited in place", func(m []any) {
+			in := inner(m, 0)
+			if sub, ok := in[0].([]any); ok {
+				in = sub
+			}
+			in[0].(map[string]any)["a"] = 11.0
+		}},
+		{"m[0][0] replaced", func(m []any) {
+			in := inner(m, 0)
+			if _, ok := in[0].([]any); ok {
+				in[0] = []any{row(30, 6), row(31, 2)}
+			} else {
+				in[0] = row(30, 6)
+			}
+		}},
+		{"m[0][last] replaced", func(m []any) {
+			in := inner(m, 0)
+			if _, ok := in[len(in)-1].([]any); ok {
+				in[len(in)-1] = []any{row(40, 3)}
+			} else {
+				in[len(in)-1] = row(40, 3)
+			}
+		}},
+		{"every inner array replaced by a longer one", func(m []any) {
+			for i := range m {
+				if in := m[i].([]any); len(in) > 0 {
+					if _, ok := in[0].([]any); ok {
+						m[i] = append([]any{[]any{row(50+float64(i), 4)}}, in...)
+						continue
+					}
+				}
+				m[i] = append([]any{row(50+float64(i), 4)}, m[i].([]any)...)
+			}
+		}},
+		{"every inner array emptied", func(m []any) {
+			for i := range m {
+				m[i] = []any{}
+			}
+		}},
+	}
+	for _, sql := range sqls {
+		for di, mk := range mks {
+			for _, ch := range changes {
+				m := mk()
+				doc := map[string]any{"m": m}
+				second, fresh, problem := execMutateExec(doc, sql, nil, func() { ch.do(m) })
+				r.Execs += 3
+				cs := map[string]any{"sql": sql, "doc": map[string]any{"m": mk()}, "after-first-exec": ch.name}
+				if problem != "" {
+					if strings.HasPrefix(problem, "fresh ") || strings.HasPrefix(problem, "first ") || strings.HasPrefix(problem, "New") {
+						continue // the statement does not apply to this document at all
+					}
+					r.Fail("C08|changed-between-execs|problem", fmt.Sprintf("%s on document %d after %s: %s", sql, di, ch.name, problem), cs)
+					continue
+				}
+				if second != fresh {
+					r.Fail("C08|changed-between-execs|stale", fmt.Sprintf("%s on document %d: after %s the same query returned %s, a fresh query returns %s", sql, di, ch.name, second, fresh), cs)
+				}
+			}
+		}
+	}
+}
+
 // ---- C15: the comparison is a function of its two values, whatever was compared before
 
 func runChangedC15(r *core.CaseResult) {
@@ -353,6 +563,93 @@ func runChangedC12(r *core.CaseResult) {
 				if bad != "" {
 					r.Fail("C12|function-registered-again|"+kind, sql+": "+bad, map[string]any{"sql": sql, "doc": mk(), "first-registration": registrars[r1].name, "second-registration": registrars[r2].name})
 				}
+			}
+		}
+	}
+}
+
+// ---- C12: a Query whose rows carry deferred items, executed again after an execution that failed
+
+// runReexecC12: the first execution of a Query fails at row k of the outermost statement (fault point
+// FAULT(id), every k); the second execution of the same Query must return plain data only, and what a
+// fresh Query returns.  The deferred items sit in the statement itself, in a derived table (built by
+// New), a CTE, a join operand and below a multi-dimensional FROM.
+func runReexecC12(r *core.CaseResult) {
+	r.Nontrivial = true
+	sqls := []string{
+		"SELECT id, ASYNC.HMID(a) AS s, FAULT(id) AS x FROM t",
+		"SELECT id, AWAIT(a) AS s, FAULT(id) AS x FROM t",
+		"SELECT *, FAULT(id) AS x FROM (SELECT id, ASYNC.HMID(a) AS s FROM t) d",
+		"SELECT d, FAULT(`d.id`) AS x FROM (SELECT id, ASYNC.HMID(a) AS s FROM t) d",
+		"SELECT *, FAULT(id) AS x FROM (SELECT id, AWAIT(a) AS s FROM t) d",
+		"SELECT *, FAULT(id) AS x FROM (SELECT id, AWAIT(SETVAR('k', a)) AS s FROM t) d",
+		"WITH c AS (SELECT id, ASYNC.HMID(a) AS s FROM t) SELECT *, FAULT(id) AS x FROM c",
+		"SELECT *, FAULT(x.id) AS f FROM t x JOIN (SELECT id AS rid, ASYNC.HMID(a) AS v FROM t) y ON x.id = y.rid",
+		"SELECT id, ASYNC.HMID(a) AS s, FAULT(id) AS x FROM m",
+		"SELECT id, (SELECT ASYNC.HMID(q) AS v FROM items) AS s, FAULT(id) AS x FROM t",
+	}
+	mk := func() map[string]any {
+		t := []any{}
+		m := []any{}
+		for j := 0; j < 3; j++ {
+			row := map[string]any{"id": float64(j), "a": float64(10 + j), "items": []any{map[string]any{"q": float64(j)}}}
+			t = append(t, row)
+			m = append(m, []any{gq.Clone(row)})
+		}
+		return map[string]any{"t": t, "m": m}
+	}
+	for _, sql := range sqls {
+		// invocations of the fault point in a fault-free run
+		resetFaults(0)
+		base := gq.Run(mk(), sql, genql.WithVars(map[string]any{}), genql.UnReportedErrors(func(error) {}))
+		n := faultCount
+		r.Execs++
+		if base.Failed() || n == 0 {
+			r.Fail("C12|re-exec-after-failure|fault-free-run", fmt.Sprintf("%s: fault-free run %s %v %s (%d fault points)", sql, base.Status(), base.Err, base.Panic, n), map[string]any{"sql": sql, "doc": mk()})
+			continue
+		}
+		want := gq.RenderRows(base.Rows)
+		for k := 1; k <= n; k++ {
+			var first, second gq.Out
+			doc := mk()
+			vrt.Run(gq.Seq, nil, func() {
+				defer func() {
+					if rec := recover(); rec != nil {
+						second.Panic = fmt.Sprint(rec)
+					}
+				}()
+				resetFaults(k)
+				q, err := genql.New(doc, sql, genql.WithVars(map[string]any{}), genql.UnReportedErrors(func(error) {}))
+				if err != nil {
+					first.Err, first.InNew = err, true
+					return
+				}
+				first.Rows, first.Err = q.Exec()
+				resetFaults(0)
+				second.Rows, second.Err = q.Exec()
+			})
+			r.Execs += 2
+			cs := map[string]any{"sql": sql, "doc": mk(), "fault-at": k}
+			if first.InNew || first.Err == nil {
+				// the k-th invocation happens while New builds a nested source (or never): not this case's history
+				continue
+			}
+			what := fmt.Sprintf("%s: the first execution failed at fault point %d of %d; the same Query executed again", sql, k, n)
+			if second.Panic != "" || second.Err != nil {
+				r.Fail("C12|re-exec-after-failure|fails", fmt.Sprintf("%s ended with %v %s", what, second.Err, second.Panic), cs)
+				continue
+			}
+			if s := gq.Plain(second.Rows); s != "" {
+				r.Fail("C12|re-exec-after-failure|not-plain-data", fmt.Sprintf("%s returned rows that are not plain data: %s: %s", what, s, gq.Render(second.Rows)), cs)
+				continue
+			}
+			got := gq.RenderRows(second.Rows)
+			same := gq.SameSeq(got, want)
+			if strings.Contains(sql, " JOIN ") {
+				same = gq.SameBag(got, want)
+			}
+			if !same {
+				r.Fail("C12|re-exec-after-failure|different-rows", fmt.Sprintf("%s returned %v, a fresh query returns %v", what, got, want), cs)
 			}
 		}
 	}
